@@ -10,7 +10,9 @@ vocabulary, so a mutated case is harmless too.
 
 A *token* is [text, kind].  kinds: kw (keyword / option / instruction name), nl (line break), hdr (phase header),
 int, regex, repl, glob, range, str, path, name (symbol name at a definition), ref:TYPE (symbol used by name),
-sref:TYPE (@[..]@ reference), text (free text: here-document lines, shell / source text), marker, cmt, desc.
+sref:TYPE (@[..]@ reference), text (free text: here-document lines, shell / source text), heredoc (<<MARKER), marker
+(the line that ends a here-document), tmo (the INTEGER of `timeout`), envname (NAME of `env`), rel (a relativity
+option), enum:SET (a word of a closed set: status / ftype / bool / of / case), cmt, desc.
 A *document* is {'elems': [{'ph': phase, 'name': instruction, 'toks': [...]}, ...]} - an element is a phase header,
 an instruction (possibly several lines), a comment, a blank line or a description.
 """
@@ -26,9 +28,9 @@ TYPES = ['string', 'list', 'path', 'integer-matcher', 'line-matcher', 'file-matc
 SYM = {'string': 'S', 'list': 'L', 'path': 'P', 'integer-matcher': 'IM', 'line-matcher': 'LM',
        'file-matcher': 'FM', 'files-matcher': 'FSM', 'files-condition': 'FC', 'files-source': 'FSRC',
        'text-source': 'TS', 'text-matcher': 'TM', 'text-transformer': 'TT', 'program': 'PGM',
-       'int-string': 'N', 'dir-path': 'PD'}
+       'int-string': 'N', 'dir-path': 'PD', 'home-path': 'PH'}
 # what the auxiliary symbols are, type-wise
-SYM_TYPE = {'int-string': 'string', 'dir-path': 'path'}
+SYM_TYPE = {'int-string': 'string', 'dir-path': 'path', 'home-path': 'path'}
 
 # ---- the world the cases live in (materialised by the check) ---------------------------------------------------------
 _BASE_FILES = {
@@ -175,9 +177,9 @@ class G:
     def path(self, rels, names, force_rel=None, kind='path'):
         """[RELATIVITY] FILE-NAME.  rels: accepted options whose root makes `names` meaningful (None: default only)."""
         if force_rel is not None:
-            self.t(force_rel, 'kw')
+            self.t(force_rel, 'rel')
         elif rels and self.maybe(2):
-            self.t(self.pick(rels), 'kw')
+            self.t(self.pick(rels), 'rel')
         name = self.pick(names)
         form = self.n(4)
         if form == 1:
@@ -188,15 +190,17 @@ class G:
 
     def existing_file(self):
         """PATH of an existing regular file with accepted relativities home / act / tmp / cd / act-home"""
-        k = self.n(5)
-        if k == 0:
+        k = self.n(6)
+        if k == 5 and self.has('home-path'):
+            self.t('@[PH]@', 'sref:path')
+        elif k == 0:
             self.path(['-rel-act', '-rel-cd'], ['f.txt', 'd/g.txt'], force_rel='-rel-act')
         elif k == 1:
             self.path(None, ['data.txt', 'x.txt'], force_rel=self.pick(['-rel-home', '-rel-act-home']))
         elif k == 2 and self.has('path'):
             self.t('@[P]@', 'sref:path')
         elif k == 3 and self.has('dir-path'):
-            self.t('-rel', 'kw')
+            self.t('-rel', 'rel')
             self.t('PD', 'ref:path')
             self.t('g.txt', 'path')
         else:
@@ -218,7 +222,7 @@ class G:
             name = 'x%d-%s' % (self.new_files, name)
         rel = self.pick([None, '-rel-act', '-rel-tmp', '-rel-cd'])
         if rel:
-            self.t(rel, 'kw')
+            self.t(rel, 'rel')
         self.t(name, 'path')
 
     def new_dir(self):
@@ -228,7 +232,7 @@ class G:
             name = 'x%d-%s' % (self.new_dirs, name)
         rel = self.pick([None, '-rel-act', '-rel-tmp', '-rel-cd'])
         if rel:
-            self.t(rel, 'kw')
+            self.t(rel, 'rel')
         self.t(name + self.pick(['', '', '/sub']), 'path')
 
     # ---- integers -----------------------------------------------------------------------------------------------------
@@ -267,7 +271,7 @@ class G:
             self.integer()
         elif form == 3:
             self.t('constant', 'kw')
-            self.t(self.pick(['true', 'false']), 'kw')
+            self.t(self.pick(['true', 'false']), 'enum:bool')
         elif form == 4:
             self.t('!', 'kw')
             self.int_matcher(d - 1)
@@ -282,9 +286,14 @@ class G:
     def regex(self):
         if self.maybe(4):
             self.t('-ignore-case', 'kw')
-        k = self.n(8)
+        k = self.n(10)
         if k == 6 and self.has('string'):
             self.t(self.pick(['@[S]@', '"^@[S]@"']), 'regex')
+        elif k == 8 or (k == 9 and not self.has('home-path')):
+            # a regex whose value depends on a directory of the home directory structure
+            self.t(self.pick(['@[EXACTLY_HOME]@', '"^@[EXACTLY_HOME]@"', '"@[EXACTLY_ACT_HOME]@/x"']), 'regex')
+        elif k == 9:
+            self.t(self.pick(['@[PH]@', '"@[PH]@$"']), 'regex')
         elif k == 7:
             self.t(':>', 'kw')
             self.t(self.pick(['a', 'b c', 'x+']), 'regex')
@@ -332,6 +341,8 @@ class G:
     def pgm_and_args(self, failing_ok=False):
         """PGM-AND-ARGS (runs to end of line)"""
         k = self.n(9)
+        if self.want('path', 'rel'):
+            k = self.pick([6, 7, 7])
         if k <= 1:
             self.t('%', 'kw')
             if self.maybe(5):
@@ -437,7 +448,7 @@ class G:
             self.t('identity', 'kw')
         elif form == 1:
             self.t('char-case', 'kw')
-            self.t(self.pick(['-to-upper', '-to-lower']), 'kw')
+            self.t(self.pick(['-to-upper', '-to-lower']), 'enum:case')
         elif form == 2:
             self.t('strip', 'kw')
             k = self.n(3)
@@ -455,8 +466,20 @@ class G:
                 self.line_matcher(d - 1)
             if self.maybe(3):
                 self.t('-preserve-new-lines', 'kw')
-            self.t(self.pick(REGEX_GOOD), 'regex')
-            self.t(self.pick(REPL_GOOD), 'repl')
+            k = self.n(8)
+            if k == 6:
+                self.t(self.pick(['@[EXACTLY_HOME]@', '"@[EXACTLY_ACT_HOME]@"', '"@[EXACTLY_ACT]@"']), 'regex')
+            elif k == 7 and self.has('home-path'):
+                self.t('@[PH]@', 'regex')
+            else:
+                self.t(self.pick(REGEX_GOOD), 'regex')
+            k = self.n(8)
+            if k == 7:
+                self.t(self.pick(['@[EXACTLY_HOME]@', '"<@[EXACTLY_TMP]@>"']), 'repl')
+            elif k == 6 and self.has('string'):
+                self.t(self.pick(['@[S]@', '"[@[S]@]"']), 'repl')
+            else:
+                self.t(self.pick(REPL_GOOD), 'repl')
         elif form == 5:
             self.t('replace-test-case-dirs', 'kw')
         elif form == 6:
@@ -495,7 +518,7 @@ class G:
             self.t('is-empty', 'kw')
         elif form == 1:
             self.t('constant', 'kw')
-            self.t(self.pick(['true', 'false']), 'kw')
+            self.t(self.pick(['true', 'false']), 'enum:bool')
         elif form == 2 or form == 3:
             self.t(self.pick(['matches', '~']), 'kw')
             if self.maybe(3):
@@ -539,7 +562,7 @@ class G:
             form = 2
         if form == 0:
             self.t('constant', 'kw')
-            self.t(self.pick(['true', 'false']), 'kw')
+            self.t(self.pick(['true', 'false']), 'enum:bool')
         elif form == 1 or form == 3:
             self.t('line-num', 'kw')
             self.int_matcher(d - 1)
@@ -568,12 +591,15 @@ class G:
             form = 6
         if form == 0:
             self.t('type', 'kw')
-            self.t(self.pick(['file', 'dir', 'symlink']), 'kw')
+            self.t(self.pick(['file', 'dir', 'symlink']), 'enum:ftype')
         elif form == 1:
             self.t('constant', 'kw')
-            self.t(self.pick(['true', 'false']), 'kw')
+            self.t(self.pick(['true', 'false']), 'enum:bool')
         elif form <= 5:
-            self.t(self.pick(['name', 'name', 'path', 'stem', 'suffixes', 'suffix']), 'kw')
+            if self.focus == 'glob':
+                self.t(self.pick(['path', 'path', 'path', 'name', 'stem', 'suffixes', 'suffix']), 'kw')
+            else:
+                self.t(self.pick(['name', 'name', 'path', 'stem', 'suffixes', 'suffix']), 'kw')
             self.glob_or_regex()
         elif form == 6 or form == 7:
             self.t('contents', 'kw')
@@ -627,7 +653,7 @@ class G:
             self.t('is-empty', 'kw')
         elif form == 1:
             self.t('constant', 'kw')
-            self.t(self.pick(['true', 'false']), 'kw')
+            self.t(self.pick(['true', 'false']), 'enum:bool')
         elif form == 2 or form == 3:
             self.t('num-files', 'kw')
             self.int_matcher(d - 1)
@@ -726,11 +752,14 @@ class G:
             if self.has('string') and self.maybe(3):
                 self.t('@[S]@', 'sref:string')
         elif key == 'path':
-            self.t(self.pick(['-rel-act', '-rel-act', '-rel-cd']), 'kw')
+            self.t(self.pick(['-rel-act', '-rel-act', '-rel-cd']), 'rel')
             self.t('f.txt', 'path')
         elif key == 'dir-path':
-            self.t('-rel-act', 'kw')
+            self.t('-rel-act', 'rel')
             self.t('d', 'path')
+        elif key == 'home-path':
+            self.t(self.pick(['-rel-home', '-rel-act-home']), 'rel')
+            self.t('data.txt', 'path')
         elif key == 'integer-matcher':
             self.int_matcher(2)
         elif key == 'line-matcher':
@@ -782,7 +811,7 @@ class G:
             self.new_file()
         elif k == 4:
             # append to the file every case has
-            self.t('-rel-act', 'kw')
+            self.t('-rel-act', 'rel')
             self.t('f.txt', 'path')
             self.t('+=', 'kw')
             self.text_source(1)
@@ -799,7 +828,7 @@ class G:
         if k == 0:
             self.new_dir()
         elif k == 4:
-            self.t('-rel-act', 'kw')
+            self.t('-rel-act', 'rel')
             self.t('d', 'path')
             self.t('+=', 'kw')
             self.files_source_fresh()
@@ -828,10 +857,10 @@ class G:
         self.t('cd', 'kw')
         k = self.n(3)
         if k == 0:
-            self.t('-rel-act', 'kw')
+            self.t('-rel-act', 'rel')
             self.t('d', 'path')
         elif k == 1:
-            self.t('-rel-cd', 'kw')
+            self.t('-rel-cd', 'rel')
             self.t('d/e', 'path')
         else:
             self.t(self.pick(['d', '"d"', '@[PD]@' if self.has('dir-path') else 'd/e']), 'path')
@@ -858,12 +887,12 @@ class G:
         self.t('env', 'kw')
         if ph == 'setup' and self.maybe(3):
             self.t('-of', 'kw')
-            self.t(self.pick(['act', '!act']), 'kw')
+            self.t(self.pick(['act', '!act']), 'enum:of')
         if self.maybe(4):
             self.t('unset', 'kw')
-            self.t(self.pick(['VAR1', 'VAR2']), 'str')
+            self.t(self.pick(['VAR1', 'VAR2']), 'envname')
         else:
-            self.t(self.pick(['VAR1', 'VAR2', '"VAR3"']), 'str')
+            self.t(self.pick(['VAR1', 'VAR2', '"VAR3"']), 'envname')
             self.t('=', 'kw')
             k = self.n(4)
             if k == 0:
@@ -908,7 +937,7 @@ class G:
             self.t('none', 'kw')
         else:
             self.t(self.pick(['5', '10', '2*3', '60', '10**100', '"7"', '@[N]@' if self.has('int-string') else '8']),
-                   'int')
+                   'tmo')
         self.end(ph, 'timeout')
 
     # assert phase
@@ -983,7 +1012,7 @@ class G:
             if k == 0:
                 self.t('status', 'kw')
                 self.t('=', 'kw')
-                self.t(self.pick(['PASS', 'PASS', 'FAIL', 'SKIP']), 'kw')
+                self.t(self.pick(['PASS', 'PASS', 'FAIL', 'SKIP']), 'enum:status')
                 self.end('conf', 'status')
             elif k == 1:
                 self.t('home', 'kw')
@@ -1086,11 +1115,15 @@ class G:
                      self.i_stdout, self.i_exit_code] + common
         else:
             table = common
+        special = {'tmo': self.i_timeout, 'envname': self.i_env, 'name': self.i_extra_def}.get(self.focus)
+        if special is not None and self.maybe(2):
+            special(ph)
+            return
         self.pick(table)(ph)
 
 
 # order in which the symbols are defined (a definition may use the ones before it)
-DEF_ORDER = ['string', 'int-string', 'list', 'path', 'dir-path', 'integer-matcher', 'text-transformer', 'text-matcher',
+DEF_ORDER = ['string', 'int-string', 'list', 'path', 'dir-path', 'home-path', 'integer-matcher', 'text-transformer', 'text-matcher',
              'line-matcher', 'file-matcher', 'files-matcher', 'files-condition', 'text-source', 'files-source',
              'program']
 
@@ -1107,12 +1140,13 @@ def _has_kind(elems, focus):
     for e in elems:
         for t in e['toks']:
             k = t[1]
-            if k == focus or (focus == 'ref' and (k.startswith('ref:') or k.startswith('sref:'))):
+            if k == focus or k.startswith(focus + ':') or \
+                    (focus == 'ref' and (k.startswith('ref:') or k.startswith('sref:'))):
                 return True
     return False
 
 
-def focused_instruction(g, ph, tries=12):
+def focused_instruction(g, ph, tries=40):
     """an instruction of the phase that contains a token of kind g.focus (best effort: the last try is kept)"""
     for i in range(tries):
         mark = len(g.elems)
@@ -1163,7 +1197,11 @@ def build_document_g(g):
     for key in DEF_ORDER:
         if key in wanted:
             g.i_def('setup', key)
-    focus_ph = g.pick(['assert', 'assert', 'setup', 'before-assert', 'cleanup', 'assert']) if focus else None
+    if focus in ('int', 'regex', 'repl', 'range', 'glob'):
+        # the instructions of [assert] are the ones built from matchers
+        focus_ph = g.pick(['assert', 'assert', 'assert', 'setup', 'assert', 'before-assert', 'assert', 'cleanup'])
+    else:
+        focus_ph = g.pick(['assert', 'assert', 'setup', 'before-assert', 'cleanup', 'assert']) if focus else None
     if focus_ph == 'setup':
         focused_instruction(g, 'setup')
     for _ in range(g.n(3) if focus else g.n(4)):
@@ -1284,3 +1322,49 @@ def render(toks):
         lines.append(' '.join(cur))
         return '\n'.join(lines)
     return '\n'.join(lines) + ('\n' if lines else '')
+
+
+# ---- deep nesting: valid texts whose only peculiarity is the depth of one construct --------------------------------------
+_DEEP_HEAD = '[setup]\nfile -rel-act f.txt = <<EOF\na\nb c\nEOF\ndir -rel-act d = {\nfile g.txt = "x"\ndir e\n}\n'
+
+
+def _deep_defs(n, typ, first, nxt):
+    return ''.join(['def %s D0 = %s\n' % (typ, first)] + ['def %s D%d = %s\n' % (typ, i + 1, nxt % i) for i in range(n)])
+
+
+DEEP_CONSTRUCTS = {
+    # name -> function(depth) -> text of the case (each is valid by the manual for every depth >= 1)
+    'int-matcher-parens': lambda n: '[act]\n% true\n[assert]\nexit-code ' + '( ' * n + '== 0' + ' )' * n + '\n',
+    'int-matcher-negations': lambda n: '[act]\n% true\n[assert]\nexit-code ' + '! ' * n + '== 1\n',
+    'int-matcher-negations-pass': lambda n: '[act]\n% true\n[assert]\nexit-code ' + '! ' * (2 * n) + '== 0\n',
+    'text-matcher-negations': lambda n: '[act]\n% true\n[assert]\nstdout ' + '! ' * (2 * n + 1) + 'is-empty\n',
+    'text-matcher-transformed': lambda n: '[act]\n% true\n[assert]\nstdout ' + '-transformed-by identity ' * n + '! is-empty\n',
+    'line-matcher-nesting': lambda n: '[act]\n% echo a\n[assert]\nstdout ' + 'every line : contents ' * n + 'is-empty\n',
+    'transformer-sequence': lambda n: ('[act]\n% echo a\n[assert]\nstdout -transformed-by ( ' +
+                                       ' | '.join(['identity'] * (n + 1)) + ' ) is-empty\n'),
+    'conjunction-chain': lambda n: '[act]\n% true\n[assert]\nexit-code ( ' + ' && '.join(['== 0'] * n + ['== 1']) + ' )\n',
+    'files-matcher-negations': lambda n: _DEEP_HEAD + '[act]\n% true\n[assert]\ndir-contents -rel-act d : ' + '! ' * (2 * n) +
+                                         'is-empty\n',
+    'file-matcher-dir-contents': lambda n: _DEEP_HEAD + '[act]\n% true\n[assert]\nexists -rel-act d : ' +
+                                           'dir-contents any file : ' * n + 'type file\n',
+    'regex-groups': lambda n: "[act]\n% true\n[assert]\nstdout matches '" + '(' * n + 'a' + ')' * n + "'\n",
+    'integer-parens': lambda n: '[act]\n% true\n[assert]\nexit-code == ' + '(' * n + '1' + ')' * n + '\n',
+    'integer-minus': lambda n: '[act]\n% true\n[assert]\nexit-code == ' + '-' * (2 * n + 1) + '1\n',
+    'string-symbol-chain': lambda n: ('[setup]\n' + _deep_defs(n, 'string', 'x', '@[D%d]@') +
+                                      '[act]\n%% echo @[D%d]@\n[assert]\nstdout equals y\n' % n),
+    'matcher-symbol-chain': lambda n: ('[setup]\n' + _deep_defs(n, 'integer-matcher', '== 1', '! D%d') +
+                                       '[act]\n%% true\n[assert]\nexit-code D%d\n' % (2 * (n // 2))),
+    'transformer-symbol-chain': lambda n: ('[setup]\n' + _deep_defs(n, 'text-transformer', 'identity', 'D%d') +
+                                           '[act]\n%% echo a\n[assert]\nstdout -transformed-by D%d is-empty\n' % n),
+    'list-elements': lambda n: '[setup]\ndef list D = ' + ' '.join(['a'] * n) + '\n[act]\n% echo @[D]@\n[assert]\nstdout is-empty\n',
+    'dir-spec-nesting': lambda n: ('[setup]\ndir nd = ' + '{\ndir s = ' * min(n, 120) + '{\n}\n' + '}\n' * min(n, 120) +
+                                   '[act]\n% true\n[assert]\nexists -rel-act nd/x\n'),
+    'path-components': lambda n: ('[setup]\nfile ' + 's/' * min(n, 120) + 'f.txt = x\n[act]\n% true\n[assert]\nexists -rel-act ' +
+                                  's/' * min(n, 120) + 'g.txt\n'),
+    'long-line': lambda n: '[act]\n% echo ' + 'a ' * (10 * n) + '\n[assert]\nstdout is-empty\n',
+    'many-instructions': lambda n: ('[setup]\n' + 'env VAR1 = x\n' * (3 * n) + '[act]\n% true\n[assert]\nexit-code == 1\n'),
+    'many-phase-headers': lambda n: '[setup]\n[act]\n' * n + '% true\n[assert]\nexit-code == 1\n',
+    'here-doc-lines': lambda n: ('[setup]\nfile big.txt = <<EOF\n' + 'a line\n' * (20 * n) +
+                                 'EOF\n[act]\n% true\n[assert]\ncontents -rel-act big.txt : is-empty\n'),
+}
+DEEP_DEPTHS = {'quick': [60, 400, 1500], 'thorough': [20, 60, 150, 250, 400, 700, 1000, 1500, 3000]}
